@@ -41,7 +41,7 @@ def gen(rng, ctx):
     ni = rng.randint(1, 5)
     ng = rng.randint(1, 9 if not big else 14)
     pconst = rng.choice([0.0, 0.0, 0.4, 0.8])
-    cd = G.rand_circuit(rng, ni, ng, max_fanin=5, p_wide=0.3, p_const=pconst, p_input_output=0.15, p_const_output=0.3, allow_x=rng.random() < 0.05)
+    cd = G.rand_circuit(rng, ni, ng, max_fanin=5, p_wide=0.3, p_const=pconst, p_input_output=0.15, p_const_output=0.3, allow_x=rng.random() < 0.05, p_large=0.04)
     kind = "plain"
     if rng.random() < 0.4:
         cd = G.add_blackboxes(rng, cd, rng.randint(1, 2), bbdefs=BBDEFS, p_unconnected=rng.choice([0.0, 0.3, 0.5]))
